@@ -92,7 +92,7 @@ func (e diskEngine) Plan(tier string) []Phase {
 }
 
 var byteFaultKinds = []string{"flip", "setbyte", "lost-zero", "lost-stale", "dup", "misdirect", "filler-tail"}
-var structFaultKinds = []string{"enoent", "eisdir", "enotdir", "eloop", "dangling", "torn", "replace", "eacces", "eio"}
+var structFaultKinds = []string{"enoent", "eisdir", "enotdir", "eloop", "dangling", "torn", "replace", "eacces", "eio", "grow"}
 
 func isByteGarbage(k string) bool {
 	return k == "misdirect" || k == "dup" || k == "lost-stale"
@@ -162,6 +162,12 @@ func genFaults(r *Rand, p *Project, light bool) []Fault {
 		}
 		ln := len(f.Data)
 		switch k {
+		case "grow":
+			// at whatever the builder does with the path after having looked at it (the second access)
+			ft.Len = r.Pick2(1, 1, 7, 600, 5000)
+			if ft.Nth != 0 {
+				ft.On, ft.Nth = "any", 2
+			}
 		case "torn":
 			ft.Off = r.Intn(ln + 1)
 			if r.Chance(1, 6) {
